@@ -169,7 +169,8 @@ class Session:
         if real:
             e = data["request"].get("enip", {})
             Counter.seq += 1
-            rec = {"seq": Counter.seq, "hdr": (e.get("command"), e.get("length"), e.get("session_handle")),
+            rec = {"seq": Counter.seq, "dg": getattr(self.conn, "cur", None), "peer": addr,
+                   "hdr": (e.get("command"), e.get("length"), e.get("session_handle")),
                    "nsent": len(self.conn.sent) if self.conn is not None else 0, "steps0": Counter.count}
             self.calls.append(rec)
         try:
@@ -251,6 +252,71 @@ def cip_of_reply(frame):
     if count != 2 or t1 != 0xb2:
         return None
     return pl[16:16 + l1]
+
+
+class EndOfScript(Exception):
+    """raised by the scripted datagram socket when the script is over (after setting control.done): the UDP loop
+    logs it like any failed request and then leaves"""
+
+
+class FakeDgram:
+    family = socket.AF_INET
+    type = socket.SOCK_DGRAM
+
+    def __init__(self, dgrams, ctl, dev):
+        self.dgrams = list(dgrams)          # [(bytes, (host, port))]
+        self.ctl, self.dev = ctl, dev
+        self.cur = -1
+        self.sent = []                      # reply bytes (index-aligned with sent_meta)
+        self.sent_meta = []                 # (datagram index being processed, address)
+        self.dumps = []                     # tag bytes after datagram k (taken when the loop asks for the next one)
+        self.steps = []
+        self.closed = False
+
+    def setsockopt(self, *a):
+        pass
+
+    def sendto(self, b, addr):
+        self.sent.append(bytes(b))
+        self.sent_meta.append((self.cur, addr))
+        return len(b)
+
+    def close(self):
+        self.closed = True
+
+    def shutdown(self, *a):
+        pass
+
+    def scripted(self):
+        if self.cur >= 0:
+            self.dumps.append(self.dev.dump())
+            self.steps.append(Counter.count)
+        self.cur += 1
+        if self.cur < len(self.dgrams):
+            return self.dgrams[self.cur]
+        self.ctl["done"] = True
+        raise EndOfScript()
+
+
+def fake_recvfrom(conn, maxlen=4096, timeout=0):
+    return conn.scripted()
+
+
+def run_udp(dev, dgrams):
+    """the real enip_srv (-> enip_srv_udp) on a server_thread over a scripted datagram socket"""
+    import cpppo
+    from cpppo.server import network
+    from cpppo.server.enip import main as emain
+    network.recvfrom = fake_recvfrom
+    ctl = cpppo.dotdict(latency=0.001, done=False, disable=False, timeout=1)
+    conn = FakeDgram(dgrams, ctl, dev)
+    sess = Session(dev, None)
+    sess.conn = conn
+    th = network.server_thread(target=emain.enip_srv, args=(conn, None),
+                               kwargs=dict(enip_process=sess.process, server={"control": ctl}))
+    th.daemon = True
+    th.start()
+    return sess, th, conn, ctl
 
 
 def run_engine(case):
